@@ -489,6 +489,11 @@ class Desk:
         # the peer honours l == u only to its own tolerance, which is relative to the scale of the whole problem
         # (simplex / branch-and-bound back-ends: 1e-6; the interior-point default CLARABEL ends around 1e-5 on l == u)
         loose = 20.0 if (plan["solver"] or "CLARABEL").upper() in ("CLARABEL", "SCS", "OSQP") and not plan["cfg"].get("mip") else 1.0
+        if plan["cfg"].get("mip"):
+            # branch and bound back-ends check their tolerance (1e-6) on the presolved, scaled problem: on the original
+            # bounds a few 1e-6 are seen (soak seed 713: 3.5e-6 on a variable pinned to 0 under a scaled asset).  Whether the
+            # bounds themselves are right is F1's business, which is exact.
+            loose = 10.0
         tol = loose * (X_TOL * (1 + np.abs(x_ref[:n][fixed])) + 1e-7 * (1 + float(np.abs(x).max(initial=0))))
         if dev.size and (dev > tol).any():
             j = int(np.where(fixed)[0][int(np.argmax(dev - tol))])
